@@ -493,9 +493,9 @@ def slash_app(kind, static_root=None):
             @deco
             def post(self):
                 self.write("ok")
-        return web.Application([(r"/.*", H)])
-    if kind in ("static1", "static2"):
-        pattern = r"/(.*)" if kind == "static1" else r"/+(.*)"
+        return web.Application([(r".*", H)])
+    if kind in ("static1", "static2", "static3"):
+        pattern = {"static1": r"/(.*)", "static2": r"/+(.*)", "static3": r"(.*)"}[kind]
         return web.Application([(pattern, web.StaticFileHandler, {"path": static_root, "default_filename": "index.html"})])
 
     class A(web.RequestHandler):
@@ -513,7 +513,7 @@ def slash_app(kind, static_root=None):
         @web.authenticated
         def post(self):
             self.write("secret")
-    return web.Application([(r"/.*", A)], login_url=LOGIN_URLS[kind])
+    return web.Application([(r".*", A)], login_url=LOGIN_URLS[kind])
 
 
 def slash_request(kind, static_root, method, raw, hasq, q):
@@ -564,32 +564,41 @@ def _handler(i, j):
     return h
 
 
-def routing_app(rules):
+def routing_app(rules, dh="none"):
     """A real Application for the abstract rule list of Routing.tla; every rule is a named URLSpec
-    r_i_j with its own handler class H_i_j."""
+    r_i_j with its own handler class H_i_j.  Entries of kind "addh" are added after construction
+    with Application.add_handlers; dh is the application's default_host."""
     from tornado import web
     from tornado.routing import HostMatches
-    top = []
+    top, later = [], []
     for i, e in enumerate(rules, 1):
         if e["k"] == "path":
             top.append(web.url(pattern_text(e["p"]), _handler(i, 0), name="r_%d_0" % i))
+            continue
+        subs = [web.url(pattern_text(p), _handler(i, j), name="r_%d_%d" % (i, j)) for j, p in enumerate(e["sub"], 1)]
+        if e["k"] == "host":
+            top.append((HostMatches(HOST_RE[e["h"]]), subs))
+        elif e["k"] == "nest":
+            top.append((pattern_text(e["p"]), subs))
         else:
-            subs = [web.url(pattern_text(p), _handler(i, j), name="r_%d_%d" % (i, j)) for j, p in enumerate(e["sub"], 1)]
-            top.append((HostMatches(HOST_RE[e["h"]]), subs) if e["k"] == "host" else (pattern_text(e["p"]), subs))
-    return web.Application(top)
+            later.append((HOST_RE[e["h"]], subs))
+    app = web.Application(top, default_host=None if dh == "none" else dh)
+    for hp, subs in later:
+        app.add_handlers(hp, subs)
+    return app
 
 
 _APPS = {}
 
 
-def routing_get_app(rules):
+def routing_get_app(rules, dh="none"):
     from .framework import jdump
-    key = jdump(rules)
+    key = jdump([rules, dh])
     a = _APPS.get(key)
     if a is None:
         if len(_APPS) > 2000:
             _APPS.clear()
-        a = _APPS[key] = routing_app(rules)
+        a = _APPS[key] = routing_app(rules, dh)
     return a
 
 
@@ -600,11 +609,11 @@ def _rule_of(name):
     return [0, 0] if name == "ErrorHandler" else name
 
 
-def routing_dispatch(rules, host, text):
+def routing_dispatch(rules, host, text, dh="none"):
     """Application.find_handler on a constructed request: (rule, raw captured args)."""
     from tornado import httputil
     try:
-        app = routing_get_app(rules)
+        app = routing_get_app(rules, dh)
         req = httputil.HTTPServerRequest(start_line=httputil.RequestStartLine("GET", text_of(text), "HTTP/1.1"),
                                          headers=httputil.HTTPHeaders({"Host": host}))
         d = app.find_handler(req)
@@ -615,11 +624,11 @@ def routing_dispatch(rules, host, text):
         return {"rule": "exc:" + type(e).__name__, "args": [], "named": False}
 
 
-def routing_dispatch_http(rules, host, text):
+def routing_dispatch_http(rules, host, text, dh="none"):
     """The same through the HTTP server: what the handler method actually received."""
     import json
-    key = ("routing", __import__("harness.framework", fromlist=["jdump"]).jdump(rules))
-    resp = http().request(key, lambda: routing_app(rules), "GET", text_of(text), host=host)
+    key = ("routing", __import__("harness.framework", fromlist=["jdump"]).jdump([rules, dh]))
+    resp = http().request(key, lambda: routing_app(rules, dh), "GET", text_of(text), host=host)
     if resp[0] == "noresp":
         return {"rule": "noresp", "args": [], "named": False}
     code, _, body = resp
@@ -632,9 +641,9 @@ def routing_dispatch_http(rules, host, text):
     return {"rule": _rule_of(d["h"]), "args": [kw[k] for k in sorted(kw)] if kw else d["args"], "named": bool(kw)}
 
 
-def routing_reverse(rules, i, j, args):
+def routing_reverse(rules, i, j, args, dh="none"):
     try:
-        app = routing_get_app(rules)
+        app = routing_get_app(rules, dh)
         return {"url": chars(app.reverse_url("r_%d_%d" % (i, j), *[text_of(a) for a in args]))}
     except Exception as e:
         return {"url": "exc:" + type(e).__name__}
